@@ -75,14 +75,22 @@ Proof. exact (fun c Hm Hf => scenario_consumer_secure c Hm (or_introl Hf)). Qed.
 Print Assumptions C19_scenario_consumer_secure.
 
 (* contexts built from a CA file require and verify the peer certificate in both directions *)
-Theorem C19_ca_requires_peer_cert : forall cy c s,
-  mk_ssl_contexts CaGiven cy = Some (c, s) ->
+Theorem C19_ca_requires_peer_cert : forall cy pw c s,
+  mk_ssl_contexts CaGiven cy pw = CtxOk c s ->
   requires_peer_cert c /\ requires_peer_cert s /\
   for_client c = true /\ for_client s = false /\ own_cert c = true /\ own_cert s = true.
 Proof. exact ca_requires_peer_cert. Qed.
 Print Assumptions C19_ca_requires_peer_cert.
 
-(* the finite argument space of mk_ssl_contexts (3 CA-file cases x cyphers given or not = 6), swept by computation *)
+(* ... read from the caller's side: whenever a CA file is NAMED (present or not), the call either raises or returns
+   contexts that both verify the peer; a named file that does not exist always raises (it is never "optional") *)
+Theorem C19_named_ca_verifies_or_raises : forall ca cy pw,
+  ca <> CaNone -> named_ca_ok (mk_ssl_contexts ca cy pw) /\ mk_ssl_contexts CaMissing cy pw = CtxNotFound.
+Proof. exact (fun ca cy pw H => conj (named_ca_verifies_or_raises ca cy pw H) (named_ca_missing_raises cy pw)). Qed.
+Print Assumptions C19_named_ca_verifies_or_raises.
+
+(* the finite argument space (CA not named / present / named but missing x cyphers none / given / file missing x
+   password fits or not = 18), swept by computation *)
 Theorem C19_ctx_argument_sweep : forall p, In p all_ctx_args -> ctx_args_ok p = true.
 Proof. exact (proj1 (forallb_forall ctx_args_ok all_ctx_args) ctx_sweep). Qed.
 Print Assumptions C19_ctx_argument_sweep.
